@@ -9,7 +9,7 @@ from cashews.key import get_cache_key, get_cache_key_template
 from cashews.ttl import ttl_to_seconds
 
 from ._exception import RaiseException, return_or_raise
-from .defaults import context_cache_detect
+from .defaults import _empty, context_cache_detect
 
 if TYPE_CHECKING:  # pragma: no cover
     from cashews._typing import TTL, CallableCacheCondition, DecoratedFunc
@@ -59,8 +59,8 @@ def iterator(
                     value=cached,
                 )
                 while True:
-                    chunk = await backend.get(_cache_key + f":{chunk_number}")
-                    if not chunk:
+                    chunk = await backend.get(_cache_key + f":{chunk_number}", default=_empty)
+                    if chunk is _empty:
                         return
                     yield return_or_raise(chunk)
                     chunk_number += 1
